@@ -72,11 +72,17 @@ func evalPair(sys semver.System, A, B string, pool []string, onEval func(v strin
 		return nil, false
 	}
 	// union, both orders
-	u1, _, _ := parseSet(sys, A)
+	u1, cU1, _ := parseSet(sys, A)
 	bArg, _, _ := parseSet(sys, B)
 	bBefore := bArg.String()
+	srcBefore := cU1.Set().String()
 	if err := u1.Union(bArg); err != nil {
 		return nil, false // documented error return: not a membership claim
+	}
+	// The receiver was taken from a constraint with Set(); the operation
+	// overwrites the receiver, not the constraint it came from.
+	if got := cU1.Set().String(); got != srcBefore {
+		fails = append(fails, result{"union-source-constraint-modified", "", fmt.Sprintf("the constraint %q printed %s before s := c.Set(); s.Union(B) and %s after", A, srcBefore, got), "constraint unchanged"})
 	}
 	if got := bArg.String(); got != bBefore {
 		fails = append(fails, result{"union-argument-modified", "", fmt.Sprintf("argument printed %s before Union and %s after", bBefore, got), "argument unchanged"})
@@ -88,10 +94,14 @@ func evalPair(sys semver.System, A, B string, pool []string, onEval func(v strin
 		return fails, true
 	}
 	// intersection, both orders
-	i1, _, _ := parseSet(sys, A)
+	i1, cI1, _ := parseSet(sys, A)
 	bArg2, _, _ := parseSet(sys, B)
 	bBefore = bArg2.String()
+	srcBefore = cI1.Set().String()
 	errI1 := i1.Intersect(bArg2)
+	if got := cI1.Set().String(); got != srcBefore {
+		fails = append(fails, result{"intersect-source-constraint-modified", "", fmt.Sprintf("the constraint %q printed %s before s := c.Set(); s.Intersect(B) and %s after", A, srcBefore, got), "constraint unchanged"})
+	}
 	if got := bArg2.String(); got != bBefore {
 		fails = append(fails, result{"intersect-argument-modified", "", fmt.Sprintf("argument printed %s before Intersect and %s after", bBefore, got), "argument unchanged"})
 	}
